@@ -48,7 +48,8 @@ RULE = ("exhaustive: every partial function dst->src over N integer registers (e
         "is neither a destination nor a declared free register must hold its initial value, and the "
         "replacement values must have the destination register types; PassFailedException / "
         "DiagnosticException = reported failure (discarded, counted by cause); any other exception, a "
-        "rewrite that burns more than 2 s of CPU, a leftover parallel_mov is a mismatch; an unknown "
+        "rewrite that keeps emitting ops (more than 5000 in the block, sampled by a CPU-time timer) or a "
+        "leftover parallel_mov is a mismatch; an unknown "
         "emitted op kind is a harness error. Non-trivial: the graph of one kind has a cycle of length "
         ">=2, a tree hanging off a cycle, or fan-out >= 2.")
 ASSUMPTIONS = [
@@ -72,29 +73,46 @@ GEN_SPLIT_VALUES = True   # fan-out through several SSA values allocated to the 
 EMITTED = {"riscv.mv", "riscv.fmv.s", "riscv.fmv.d", "riscv.xor"}
 NANBOX = frozenset(["ones"])
 ZERO_LANES = (frozenset(), frozenset())
-PASS_TIME_LIMIT_S = 2   # the pass takes ~1 ms on these inputs; a non-terminating rewrite is a defect
+# Non-termination guard.  A correct lowering of n moves emits at most 3n ops; the known runaway
+# rewrites emit ops forever.  A CPU-time timer samples the block: more than RUNAWAY_OPS ops in it is a
+# runaway (deterministic criterion, independent of machine load and gc pauses); a rewrite that burns
+# STALL_LIMIT_S of CPU without that is only counted as inconclusive.
+RUNAWAY_OPS = 5000
+FIRST_SAMPLE_S = 0.25
+SAMPLE_EVERY_S = 0.05
+STALL_LIMIT_S = 30.0
+MAX_RUNAWAYS_PER_CLASS = 20  # per process and input class (zero chain, several zero dsts, split values)
+RUNAWAYS: dict = {}
 
 
-MAX_HANGS_PER_CLASS = 2  # per process and input class (zero chain, several zero dsts, split values)
-HANGS: dict = {}
+class PassRunaway(BaseException):
+    pass
 
 
-class PassHang(BaseException):
+class PassStall(BaseException):
     pass
 
 
 @contextlib.contextmanager
-def time_limit(seconds):
-    """SIGVTALRM guard around the code under test (main thread of the shard process).
+def runaway_guard(block):
+    """SIGVTALRM sampler around the code under test (main thread of the shard process).
 
-    The timer keeps firing every 50 ms after the limit: an exception raised by a signal handler is
-    silently dropped when the handler happens to run inside a gc callback (Hypothesis installs one)
-    or a finalizer, which is likely while a runaway rewrite allocates ops as fast as it can."""
+    The timer keeps firing: an exception raised by a signal handler is silently dropped when the handler
+    happens to run inside a gc callback (Hypothesis installs one) or a finalizer, which is likely while a
+    runaway rewrite allocates ops as fast as it can; the next sample raises again."""
+    state = {"ticks": 0}
+
     def on_alarm(signum, frame):
-        raise PassHang()
-    # CPU-time timer (a runaway loop burns CPU): a loaded machine cannot cause a false "hang"
+        state["ticks"] += 1
+        n, op = 0, block.first_op
+        while op is not None and n <= RUNAWAY_OPS:
+            n, op = n + 1, op.next_op
+        if n > RUNAWAY_OPS:
+            raise PassRunaway()
+        if FIRST_SAMPLE_S + state["ticks"] * SAMPLE_EVERY_S > STALL_LIMIT_S:
+            raise PassStall()
     old = signal.signal(signal.SIGVTALRM, on_alarm)
-    signal.setitimer(signal.ITIMER_VIRTUAL, seconds, 0.05)
+    signal.setitimer(signal.ITIMER_VIRTUAL, FIRST_SAMPLE_S, SAMPLE_EVERY_S)
     try:
         try:
             yield
@@ -303,20 +321,23 @@ def oracle(recipe):
     split_fanout = bool(recipe.get("split")) and (has_fanout(imoves) or has_fanout(fmoves))
     base = {"split": int(split_fanout), "zero_chain": int(fi["zero_chain"])}
     module, prod, cons, ops = build(recipe)
-    hang_class = (fi["zero_chain"], fi["multi_zero_dst"], split_fanout)
-    if HANGS.get(hang_class, 0) >= MAX_HANGS_PER_CLASS:
-        return "skipped", [], feats       # each further hang would cost PASS_TIME_LIMIT_S
+    in_class = (fi["zero_chain"], fi["multi_zero_dst"], split_fanout)
+    if RUNAWAYS.get(in_class, 0) >= MAX_RUNAWAYS_PER_CLASS:
+        return "skipped", [], feats       # bounded cost: each further runaway costs ~0.3 s
     try:
-        with quiet(), time_limit(PASS_TIME_LIMIT_S):
+        with quiet(), runaway_guard(module.body.block):
             RISCVLowerParallelMovPass().apply(Context(), module)
     except (PassFailedException, DiagnosticException):
         return "rejected", [], feats
     except NotImplementedError:
         return "notimpl", [], feats
-    except PassHang:
-        HANGS[hang_class] = HANGS.get(hang_class, 0) + 1
-        sig = dict(base, check="hang", multi_zero_dst=int(fi["multi_zero_dst"]))
-        return "ok", [(sig, f"pass did not return within {PASS_TIME_LIMIT_S}s of CPU time on\n{describe(recipe)}")], feats
+    except PassStall:
+        return "stalled", [], feats
+    except PassRunaway:
+        RUNAWAYS[in_class] = RUNAWAYS.get(in_class, 0) + 1
+        sig = dict(base, check="runaway", multi_zero_dst=int(fi["multi_zero_dst"]))
+        return "ok", [(sig, f"pass does not terminate: more than {RUNAWAY_OPS} ops emitted and still "
+                       f"rewriting on\n{describe(recipe)}")], feats
     except Exception as e:  # crash inside the pass on verified input
         sig = dict(base, check="crash", exc=type(e).__name__, where=innermost(e),
                    multi_zero_dst=int(fi["multi_zero_dst"]))
@@ -477,7 +498,9 @@ def run_one(h, recipe, label, distinct=False):
     elif status == "notimpl":
         h.discard("not_implemented")
     elif status == "skipped":
-        h.inconclusive("skipped_after_repeated_hangs_in_this_input_class")
+        h.inconclusive("skipped_after_repeated_runaways_in_this_input_class")
+    elif status == "stalled":
+        h.inconclusive("pass_used_30s_cpu_without_emitting_many_ops")
     else:
         h.count("lowered")
     for sig, detail in res:
